@@ -353,9 +353,22 @@ theorem removeFirst_sublist (v : Bytes) : ∀ (xs : List Node), (removeFirst v x
     | map fs => simp only [removeFirst]; exact ih.cons_cons _
     | arr ys => simp only [removeFirst]; exact ih.cons_cons _
 
-theorem hRemoveVal_siblings {v : Bytes} {u u' : Node} {i : Nat} (h : hRemoveVal v u (.target i) = .ok u') :
+theorem removeFirstC_sublist (w : Bytes) : ∀ (xs : List Node), (removeFirstC w xs).Sublist xs
+  | [] => by simp [removeFirstC]
+  | x :: rest => by
+    rw [removeFirstC]; split
+    · exact List.sublist_cons_self _ _
+    · exact (removeFirstC_sublist w rest).cons_cons _
+
+theorem rmVal_sublist (c : Bool) (v : Bytes) (xs : List Node) : (rmVal c v xs).Sublist xs := by
+  unfold rmVal; split
+  · exact removeFirstC_sublist _ xs
+  · exact removeFirst_sublist v xs
+
+theorem hRemoveVal_siblings {rm : List Node → List Node} {u u' : Node} {i : Nat}
+    (h : hRemoveVal rm u (.target i) = .ok u') :
     (∀ j, i ≠ j → getChild u' j = getChild u j) ∧
-    ∃ xs, getChild u i = some (.arr xs) ∧ (getChild u' i = some (.arr (removeFirst v xs)) ∨ getChild u' i = none) := by
+    ∃ xs, getChild u i = some (.arr xs) ∧ (getChild u' i = some (.arr (rm xs)) ∨ getChild u' i = none) := by
   rw [hRemoveVal] at h
   split at h
   · rename_i xs hg
